@@ -873,6 +873,9 @@ func runC15(ctx *Ctx) {
 	if ctx.Want(cases + 32) {
 		c15ServedNulls(ctx, cases+32)
 	}
+	if ctx.Want(cases + 33) {
+		contractCase(ctx, cases+33, ctx.Sub(cases+33), "many-accounts", "c15-")
+	}
 	for c := 0; c < ctx.N(2, 20); c++ {
 		if ctx.Want(cases + 3 + c) {
 			c15Agent(ctx, cases+3+c, ctx.Sub(cases+3+c))
